@@ -251,6 +251,65 @@ def _check_proxy_domain(res, mm, sc, T, cname, unit, via_file, full, history):
                 return
 
 
+def embedded_edits(res, tier):
+    """Controllers of modules that live INSIDE a loaded module (a Sampler's effect synth; the project of a MetaModule whose
+    embedded file carries any version stamp, also one newer than this library writes): assigning v and saving stores the
+    documented encoding of v - read back from the bytes without rv - and reloading returns v."""
+    import random
+    import rv.api as api
+    from rv.modules import MODULE_CLASSES
+    from .. import refcodec, workload
+    sp = spec.load()
+    rng = random.Random(23)
+    cands = [(T, sc) for T, t in sorted(sp.items()) if T not in ("Output", "MetaModule") for sc in t.controllers
+             if sc.kind in ("range", "compact", "no_offset") and sc.attached]
+    for k in range(60 if tier == "quick" else 600):
+        T, sc = rng.choice([c for c in cands if c[1].min < 0] if k % 2 else cands)
+        cls = MODULE_CLASSES[sp[T].mtype]
+        inner_mod = cls()
+        v0 = rng.randint(sc.min, sc.max)
+        setattr(inner_mod, sc.name, v0)
+        how = ("sampler-effect", "metamodule", "metamodule-newer-stamp", "metamodule-in-metamodule")[k % 4]
+        if how == "sampler-effect":
+            outer = api.m.Sampler()
+            outer.effect = api.Synth(inner_mod)
+            find = lambda o: o.effect.module
+            dec_path = lambda d: d["module"]["payload"]["effect"]["module"]
+        else:
+            proj = api.Project()
+            proj.attach_module(inner_mod)
+            if how == "metamodule-newer-stamp":
+                proj.sunvox_version = rng.choice([(2, 1, 3, 0), (2, 2, 0, 0), (9, 9, 9, 9)])
+            outer = api.m.MetaModule(project=proj)
+            find = lambda o: o.project.modules[1]
+            dec_path = lambda d: d["module"]["payload"]["project"]["modules"][1]
+            if how == "metamodule-in-metamodule":
+                proj2 = api.Project()
+                proj2.attach_module(outer)
+                outer = api.m.MetaModule(project=proj2)
+                find = lambda o: o.project.modules[1].project.modules[1]
+                dec_path = lambda d: d["module"]["payload"]["project"]["modules"][1]["payload"]["project"]["modules"][1]
+        case = {"type": T, "controller": sc.name, "container": how}
+        res.case(("embedded-edit", T, sc.name, how, k))
+        res.count("embedded_edit_cases")
+        res.hist("embedded_edit_containers", how)
+        try:
+            loaded = outer.clone()
+            target = find(loaded)
+            v = rng.choice([x for x in (sc.min, sc.max, rng.randint(sc.min, sc.max)) if x != v0] or [v0])
+            setattr(target, sc.name, v)
+            raw = api.Synth(loaded).read()
+            dec, _problems = refcodec.decode(raw)
+            stored_typed = dec_path(dec)["controllers"][sc.name]
+            again = find(workload.load(raw).module)
+        except Exception as e:
+            res.violation(f"C10:embedded-edit-raises:{how}:{workload.exc_key(e)}", f"{T}.{sc.name} inside a loaded {how}: {e!r}", case)
+            continue
+        if stored_typed != v or getattr(again, sc.name) != v:
+            res.violation(f"C10:encode:embedded:{how}:{sc.kind}", f"{T}.{sc.name} = {v} assigned inside a loaded {how} (was {v0}): the file stores {stored_typed} (decoded per the documented "
+                                                                  f"encoding), reloading gives {getattr(again, sc.name)}", case)
+
+
 def surplus_cval_files(res, tier):
     """Files from a NEWER writer: more CVAL chunks than this library knows controllers for the type.  The known controllers
     decode exactly as without the surplus; values that live elsewhere (the Sampler's vibrato / fade-out fields in its
@@ -419,6 +478,8 @@ def run_shard(spec_, res):
         reflect_histories(res, spec_["tier"])
     if spec_["shard"] == 1:
         surplus_cval_files(res, spec_["tier"])
+    if spec_["shard"] == 2:
+        embedded_edits(res, spec_["tier"])
     for T, cname, unit in spec_["tasks"]:
         check_controller(res, T, cname, unit)
         if spec_["tier"] == "thorough" and T != "Output":
